@@ -151,45 +151,105 @@ Definition listing (dst0 : list (bytes * entry)) (rs : list (c16case * dfs)) : s
         end) cands).
 
 (* the copies one after the other (matches in lexical order), stopping at the first error *)
-Fixpoint run_all (f : c16case -> dfs * option cerr) (ks : list c16case) : list (c16case * dfs) * option cerr :=
+(* one copy: the state it left below its landing target, the error, and (when it failed) the
+   relative paths of the directories it had created or chmod'ed but not yet given their metadata *)
+Definition runres := (dfs * option cerr * list bytes)%type.
+Definition rr_fs (r : runres) : dfs := fst (fst r).
+Definition rr_err (r : runres) : option cerr := snd (fst r).
+Definition rr_half (r : runres) : list bytes := snd r.
+
+(* the copies one after the other (matches in lexical order), stopping at the first error; the
+   failing copy's partial state is part of the result *)
+Fixpoint run_all (f : c16case -> runres) (ks : list c16case) : list (c16case * dfs) * option cerr * list bytes :=
   match ks with
-  | [] => ([], None)
+  | [] => ([], None, [])
   | k :: r =>
     let res := f k in
-    match snd res with
-    | Some e => ([], Some e)
-    | None => let '(rs, e) := run_all f r in ((k, fst res) :: rs, e)
+    match rr_err res with
+    | Some e => ([(k, rr_fs res)], Some e, map (joinL (k_L k)) (rr_half res))
+    | None => let '(rs, e, h) := run_all f r in ((k, rr_fs res) :: rs, e, h)
     end
   end.
 
-(* ---- the specification: what the destination must look like, from the verdict V alone ---- *)
+(* ---- the specification: what the destination must look like, from the verdict V alone ----
+   items = flat_items V (the entries of the full walk that V selects or that lie above a selected
+   entry).  The copy fails at the first item (walk order) that meets the other kind in the
+   destination; with always-replace only a directory needed as a PARENT (not selected itself)
+   over a non-directory fails, every other clash is resolved by removing what is there (a
+   directory with everything below it).  Items before the failing one are materialised, every
+   other destination entry is untouched.  Directories that were selected themselves and contain
+   the failing entry are "half done" when the copy aborts (made or chmod'ed; owner, mode and xattrs
+   are applied after their contents): only their existence is specified. *)
 Definition root_item (rootst : stat) : litem := {| l_st := set_path rootst []; l_ct := []; l_sel := true |}.
 
-Definition spec_run (V : bytes -> bool) (k : c16case) : dfs * option cerr :=
+Definition kind_mismatch (it : litem) (o : option entry) : bool :=
+  match o with None => false | Some e => negb (Bool.eqb (st_is_dir (l_st it)) (e_dir e)) end.
+Definition conflict_r (repl : bool) (it : litem) (o : option entry) : option cerr :=
+  if repl then (if kind_mismatch it o && st_is_dir (l_st it) && negb (l_sel it) then Some EDirOverNondir else None)
+  else conflict_of it o.
+Fixpoint split_conflict (repl : bool) (items : list litem) (fs0 : dfs) : list litem * option (litem * cerr) :=
+  match items with
+  | [] => ([], None)
+  | it :: r =>
+    match conflict_r repl it (fs0 (l_path it)) with
+    | Some e => ([], Some (it, e))
+    | None => let '(b, x) := split_conflict repl r fs0 in (it :: b, x)
+    end
+  end.
+Definition step_r (repl : bool) (fs0 : dfs) (q : bytes) (o : option entry) (it : litem) : option entry :=
+  if bytes_eqb q (l_path it) then Some (result it (if repl && kind_mismatch it o then None else o))
+  else if repl && negb (st_is_dir (l_st it)) && kind_mismatch it (fs0 (l_path it)) && under (l_path it) q then None
+  else o.
+
+Definition spec_run (V : bytes -> bool) (repl : bool) (k : c16case) : runres :=
+  let fs0 := k_fs0 k in
   match k_src k with
   | SrcDir rootst view =>
     let items := flat_items V view in
-    let fs0 := k_fs0 k in
-    match conflict_of (root_item rootst) (fs0 []) with
-    | Some e => (fs0, Some e)
+    let rootit := root_item rootst in
+    match conflict_r repl rootit (fs0 []) with
+    | Some e => (fs0, Some e, [])
     | None =>
-      (fun q => match q with
-                | [] => match fs0 [] with None => Some (result (root_item rootst) None) | o => o end
-                | _ => spec_ent items fs0 q
-                end,
-       first_conflict items fs0)
+      let root_created := match fs0 [] with None => true | Some e => negb (e_dir e) end in
+      let '(before, fail) := split_conflict repl items fs0 in
+      let st := fun q => match q with
+                         | [] => if root_created then Some (result rootit None) else fs0 []
+                         | _ => fold_left (step_r repl fs0 q) before (fs0 q)
+                         end in
+      match fail with
+      | None => (st, None, [])
+      | Some (f, e) =>
+        (st, Some e,
+         (if root_created then [[]] else []) ++
+         map l_path (filter (fun it => l_sel it && st_is_dir (l_st it) && under (l_path it) (l_path f)) before))
+      end
     end
   | SrcFile st ct =>
     let it := {| l_st := set_path st []; l_ct := ct; l_sel := true |} in
-    (fun q => match q with [] => Some (result it (k_fs0 k [])) | _ => k_fs0 k q end,
-     conflict_of it (k_fs0 k []))
+    match conflict_r repl it (fs0 []) with
+    | Some e => (fs0, Some e, [])
+    | None =>
+      (fun q => match q with
+                | [] => Some (result it None)
+                | _ => if repl && kind_mismatch it (fs0 []) then None else fs0 q
+                end, None, [])
+    end
   end.
 
-Definition outcome (dst0 : list (bytes * entry)) (r : list (c16case * dfs) * option cerr) : sx :=
-  SL [SN (err_class (snd r)); match snd r with None => listing dst0 (fst r) | Some _ => SL [] end].
+(* entries at half-done paths: existence and type only *)
+Definition mask_entry (half : list bytes) (e : sx) : sx :=
+  match e with
+  | SL (SB p :: SN m :: _) => if existsb (bytes_eqb p) half then SL [SB p; SN (N.land m 61440)] else e
+  | _ => e
+  end.
+Definition mask_listing (half : list bytes) (l : sx) : sx :=
+  match l with SL es => SL (map (mask_entry half) es) | _ => l end.
 
-Definition model_run (pm : bytes -> bytes -> bool) (c : cfg) (k : c16case) : dfs * option cerr :=
-  let '(fs', _, e) := copy_sel pm c (k_src k) (k_fs0 k) in (fs', e).
+Definition outcome (dst0 : list (bytes * entry)) (half : list bytes) (r : list (c16case * dfs) * option cerr * list bytes) : sx :=
+  SL [SN (err_class (snd (fst r))); mask_listing half (listing dst0 (fst (fst r)))].
+
+Definition model_run (pm : bytes -> bytes -> bool) (c : cfg) (repl : bool) (k : c16case) : runres :=
+  let '(fs', _, e) := copy_sel pm c repl (k_src k) (k_fs0 k) in (fs', e, []).
 
 Definition any_late_shadow (pm : bytes -> bytes -> bool) (c : cfg) (ks : list c16case) : bool :=
   existsb (fun k => negb (forallb (fun e => nls_path pm c (st_path (fst e))) (walk_root (src_view (k_src k))))) ks.
@@ -200,9 +260,7 @@ Definition mk_cases (sv dv : list node) (mode : N) (name : bytes) : option (list
   if N.eqb mode 2 then omap (fun n => mk_case sv dv 1 (node_name n)) sv
   else match mk_case sv dv mode name with Some k => Some [k] | None => None end.
 
-Definition run_1601 (input impl : sx) : sx :=
-  match input with
-  | SL [sv; dv; inc; exc; SN mode; SB name] =>
+Definition run_1601_body (sv dv inc exc : sx) (mode : N) (name : bytes) (repl : bool) (impl : sx) : sx :=
     match dec_view sv, dec_view dv, dec_raws inc, dec_raws exc with
     | Some sview, Some dview, Some incr_, Some excr =>
       if negb (wf_tree sview && wf_tree dview && view_sorted sview && view_sorted dview
@@ -224,24 +282,22 @@ Definition run_1601 (input impl : sx) : sx :=
             match mk_cfg incr_ excr with
             | None => v_diff (SL [SN 65535])
             | Some c =>
-              let impl' := SL [SN 0; iinc; iexc; SL [SN cls; if N.eqb cls 0 then csnap else SL []]] in
-              let mr := run_all (model_run pm c) ks in
-              let model := SL [SN 0; enc_side (c_inc c); enc_side (c_exc c); outcome dst0 mr] in
-              (* the specification: the copy fails iff a materialised entry meets the other kind
-                 (directory / non-directory) in the destination, with the error of the first such
-                 entry in walk order; on success the destination is exactly what spec_ent says *)
-              let spec_ok (r : list (c16case * dfs) * option cerr) : bool :=
-                match snd r with
-                | None => N.eqb cls 0 && sx_eqb (listing dst0 (fst r)) csnap
-                | Some e => N.eqb cls (err_class (Some e))
-                end in
-              let r_naive := run_all (spec_run (keep_naive pm c)) ks in
+              (* the specification (see spec_run), evaluated on what the implementation left on
+                 disk: same error, and the same destination — also when the copy failed *)
+              let spec_ok (r : list (c16case * dfs) * option cerr * list bytes) : bool :=
+                N.eqb cls (err_class (snd (fst r)))
+                && sx_eqb (mask_listing (snd r) (listing dst0 (fst (fst r)))) (mask_listing (snd r) csnap) in
+              let r_naive := run_all (spec_run (keep_naive pm c) repl) ks in
+              let r_incr := run_all (spec_run (keep_incr pm c) repl) ks in
+              let half := snd r_incr in
+              let impl' := SL [SN 0; iinc; iexc; SL [SN cls; mask_listing half csnap]] in
+              let mr := run_all (model_run pm c repl) ks in
+              let model := SL [SN 0; enc_side (c_inc c); enc_side (c_exc c); outcome dst0 half mr] in
               if spec_ok r_naive then verdict model impl' true (SL [])
               else
-                let r_incr := run_all (spec_run (keep_incr pm c)) ks in
                 let s :=
                   if any_late_shadow pm c ks && spec_ok r_incr then [sig s_late_shadow] else [] in
-                verdict model impl' false (SL (s ++ [outcome dst0 r_naive]))
+                verdict model impl' false (SL (s ++ [outcome dst0 (snd r_naive) r_naive]))
             end
           | _, _ => v_malformed
           end
@@ -249,6 +305,16 @@ Definition run_1601 (input impl : sx) : sx :=
         end
       end
     | _, _, _, _ => v_malformed
+    end.
+
+(* input = (srcView dstView include exclude mode name [alwaysReplace]) *)
+Definition run_1601 (input impl : sx) : sx :=
+  match input with
+  | SL [sv; dv; inc; exc; SN mode; SB name] => run_1601_body sv dv inc exc mode name false impl
+  | SL [sv; dv; inc; exc; SN mode; SB name; rp] =>
+    match sx_bool rp with
+    | Some repl => run_1601_body sv dv inc exc mode name repl impl
+    | None => v_malformed
     end
   | _ => v_malformed
   end.
@@ -275,7 +341,7 @@ Definition run_1602 (input impl : sx) : sx :=
           match mk_cfg incr_ excr with
           | None => v_diff (SL [SN 65535])
           | Some c =>
-            let '(_, log, e) := copy_sel pm c (SrcDir (fst root_entry) sview) (root_dst root_entry) in
+            let '(_, log, e) := copy_sel pm c false (SrcDir (fst root_entry) sview) (root_dst root_entry) in
             let m_copied := enc_paths (map l_path log) in
             let m_walked := enc_paths (map st_path (filter_walk pm id_map c sview)) in
             let model := SL [SN 0; enc_side (c_inc c); enc_side (c_exc c); SN (err_class e); m_copied; m_walked] in
